@@ -86,6 +86,9 @@ def gen_sim(seed, i, pool):
     ctx = "crate::some::Ctx" if rng.coin(150) else None
     prefix = rng.choice(["", "", "use x;", "use x;\n// p", "pub struct ImJustHereToConfuse;"])
     fmt = rng.coin(120)
+    if i < len(pool):
+        # first pass over the pool: settings every route can express, so that each grammar is compared across all routes
+        derives, ctx, fmt = (None if rng.coin(600) else ["Debug", "Clone", "PartialEq", "Eq"]), None, False
     # other grammars compiled in the same process before / next to the one under study (directory mode, repeated library calls)
     companions = []
     inc = [t for n, t in pool if b">" in t and n != name]
@@ -295,13 +298,14 @@ def execute_sim(sim, simdir):
                 viol.append({"class": "bytes-differ-between-processes", "route": route, "env_a": ks[0], "env_b": k,
                              "detail": first_diff(a["bytes"], b["bytes"])})
     # (b) different routes, same environment: identical after header / prefix / trailing newline
-    if not sim["format"]:
+    # (with format on, the Compile routes are formatted and are compared with rustfmt of their plain output below)
+    if True:
         for k in range(len(sim["envs"])):
             if ("lib", k) not in outs:
                 continue
             lib = outs[("lib", k)]
             for route in ROUTES[1:]:
-                if (route, k) not in outs:
+                if (route, k) not in outs or (sim["format"] and route.startswith("compile")):
                     continue
                 r = outs[(route, k)]
                 if r["crashed"] or lib["crashed"]:
@@ -315,7 +319,7 @@ def execute_sim(sim, simdir):
                         viol.append({"class": "route-framing-unexpected", "route": route, "env": k, "detail": "output does not start with header%s" % (" + prefix" if route != "cli" else "")})
                     elif n != ln:
                         viol.append({"class": "routes-differ", "route": route, "env": k, "detail": first_diff(ln, n)})
-    else:
+    if sim["format"]:
         # format on: rustfmt applied by the harness to the route's unformatted output must give the formatted output
         for k in range(len(sim["envs"])):
             for route in ("compile_file",):
